@@ -192,12 +192,21 @@ channel_read_map(struct channel* self, struct channel_reader* reader)
     }
 
     if (!nbytes) {
-        // If nothing is available to read, we still need to advance this
-        // reader's position & cycle bookmarks to the beginning of the queue and
-        // the writer's cycle, respectively.
-        out = 0;
+        // Nothing is left to read in the previous cycle. Advance this reader's
+        // position & cycle bookmarks to the beginning of the queue and the
+        // writer's cycle, respectively, and map whatever has already been
+        // committed there. (An empty slice must mean "drained".)
         *pos = 0;
         *cycle = self->cycle;
+        nbytes = self->head;
+        if (nbytes) {
+            out = self->data;
+            reader->pos = self->head;
+            reader->cycle = self->cycle;
+            reader->state = ChannelState_Mapped;
+        } else {
+            out = 0;
+        }
     } else {
         reader->state = ChannelState_Mapped;
     }
